@@ -154,7 +154,7 @@ class Ctx:
         self.rec.violations.append(dict(label=v.label, detail=str(v.detail)[:600], replay=path))
         return True
 
-    def run_hypothesis(self, make_test, examples, chunk=None, replay_fn=None, stop_on_violation=True):
+    def run_hypothesis(self, make_test, examples, chunk=None, replay_fn=None, stop_on_violation=True, share=1.0):
         """make_test(settings_decorator) -> zero-arg Hypothesis test.  Runs it in seeded chunks until the
         example count or the time budget is reached.  A failing chunk yields a shrunk Violation."""
         from hypothesis import settings, seed as hseed, HealthCheck, Phase
@@ -168,7 +168,9 @@ class Ctx:
         chunk = chunk or max(20, min(examples, 250))
         done = 0
         ci = 0
-        while done < examples and self.time_left() > 0 and not self.stop:
+        # wall-clock cap (load protection only; case counts are the budget): this call may use `share` of what is left
+        until = time.time() + max(0.0, self.time_left()) * share
+        while done < examples and time.time() < until and not self.stop:
             nex = min(chunk, examples - done)
             st = settings(max_examples=nex, database=None, deadline=None, derandomize=False, report_multiple_bugs=False,
                           suppress_health_check=list(HealthCheck), phases=[Phase.generate, Phase.shrink], print_blob=False)
@@ -212,6 +214,8 @@ class Ctx:
                 self.abort_chunk = False
             done += nex
             ci += 1
+        if done < examples and not self.stop:
+            self.rec.count('examples_cut_by_wall_clock_cap', examples - done)
         return done
 
 
